@@ -353,7 +353,7 @@ class Comp(Ref):
         self.dim = {"intersect": min(A.dim, B.dim), "union": max(A.dim, B.dim), "difference": A.dim}[op]
         self.tol, self.zs = max(A.tol, B.tol), sorted(set(A.zs + B.zs))
         self.kind = f"{op}({A.kind},{B.kind})"
-        self.desc = {"op": op, "A": A.desc, "B": B.desc}
+        self.desc, self._measure = {"op": op, "A": A.desc, "B": B.desc}, None
 
     def sd(self, P):
         a, b = self.A.sd(P), self.B.sd(P)
@@ -363,21 +363,38 @@ class Comp(Ref):
             return np.minimum(a, b)
         return np.maximum(a, -b - self.B.slack)
 
-    def points(self, M, salt=0):
-        A, B = self.A, self.B
+    def points(self, M, salt=0, dense=False):
+        """Quasi-uniform points on the composed set, generated from M points of the sampled operand(s);
+        dense=True scales M up so that about M points remain (needed when nested in a union)."""
+        A, B, pts = self.A, self.B, lambda r, m, s: r.points(max(1, int(m)), s, True) if isinstance(r, Comp) else r.points(max(1, int(m)), s)
+        if dense:
+            M = min(M * self._src_measure() / max(self.measure, 1e-300), 40 * M)
         if self.op == "intersect":
             src, oth = (A, B) if (A.dim, A.measure) <= (B.dim, B.measure) else (B, A)
-            p = src.points(M, salt)
+            p = pts(src, M, salt)
             return p[oth.sd(p) <= 0]
         if self.op == "difference":
-            p = A.points(M, salt)
+            p = pts(A, M, salt)
             return p[B.sd(p) > 0]
         if A.dim != B.dim:
-            return (A if A.dim > B.dim else B).points(M, salt)
+            return pts(A if A.dim > B.dim else B, M, salt)
         tot = A.measure + B.measure
-        pa = A.points(max(1, int(M * A.measure / tot)), salt)
-        pb = B.points(max(1, int(M * B.measure / tot)), salt + 1)
-        return np.concatenate([pa, pb[A.sd(pb) > 0]])
+        pb = pts(B, M * B.measure / tot, salt + 1)
+        return np.concatenate([pts(A, M * A.measure / tot, salt), pb[A.sd(pb) > 0]])
+
+    def _src_measure(self):
+        A, B = self.A, self.B
+        if self.op == "intersect":
+            return A.measure if (A.dim, A.measure) <= (B.dim, B.measure) else B.measure
+        if self.op == "difference" or A.dim > B.dim:
+            return A.measure
+        return B.measure if B.dim > A.dim else A.measure + B.measure
+
+    @property
+    def measure(self):
+        if self._measure is None:
+            self._measure = len(self.points(30000, 3)) / 30000 * self._src_measure()
+        return self._measure
 
 
 class KDCells:
